@@ -30,6 +30,9 @@ Val = _V.create()
 ExprS = z3.DeclareSort("Expr")
 # expression kinds, in terms of the classes the repository's dispatch tables test for
 K_QTY, K_PREFIX, K_MUL, K_POW, K_ADD, K_ABS, K_MIN, K_MAX, K_DERIV, K_FUNC, K_NUM, K_SYM, K_DIMSYM, K_OTHER = range(14)
+# K_DIMSYM: a symplyphysics Symbol / IndexedSymbol (DimensionSymbol);  K_SYMBOLIC: a Symbolic wrapper (Average, FiniteDifference, ...) --
+# it declares a dimension but is neither a Quantity nor a DimensionSymbol.  Used by the C06 dispatcher model only (kind(e) <= K_OTHER elsewhere).
+K_SYMBOLIC = 14
 KIND_NAMES = ["Quantity", "Prefix", "Mul", "Pow", "Add", "Abs", "Min", "Max", "Derivative", "Function", "Number", "Symbol", "DimSymbol", "Other"]
 kind = z3.Function("kind", ExprS, z3.IntSort())
 nargs = z3.Function("nargs", ExprS, z3.IntSort())
@@ -177,9 +180,13 @@ def args_seq(e):
 
 
 def expr_wf(e):
+    return expr_wf_upto(e, K_OTHER)
+
+
+def expr_wf_upto(e, last_kind):
     """structural facts SymPy guarantees: a Mul/Add/Min/Max has >= 2 args, Pow exactly 2, Abs 1, Function >= 1"""
     k = kind(e)
-    return z3.And(k >= 0, k <= K_OTHER, nargs(e) >= 0,
+    return z3.And(k >= 0, k <= last_kind, nargs(e) >= 0,
                   z3.Implies(z3.Or(k == K_MUL, k == K_ADD, k == K_MIN, k == K_MAX), nargs(e) >= 2),
                   z3.Implies(k == K_POW, nargs(e) == 2), z3.Implies(k == K_ABS, nargs(e) == 1),
                   z3.Implies(k == K_FUNC, nargs(e) >= 1), z3.Implies(k == K_DERIV, nargs(e) >= 2),
